@@ -733,7 +733,8 @@ func TestVerifC02Mgr(t *testing.T) {
 	}
 	h.Close("GroupQuotaManager with a random 2-3 level quota tree (1-4 top quotas, children, grandchildren; min<=max; random shared weights, lend flags; min scaling on in 1/3), " +
 		"leaf requests with milli-granular CPU set through delta propagation, 1-4 phases with request changes (incl. sub-core cpu-only nudges), cluster-total changes and re-parenting, " +
-		"RefreshRuntime on every quota top-down (two passes); one block per (parent, dimension) whose inputs are read from the quota objects (not from the calculator's own nodes); " +
+		"RefreshRuntime on every quota top-down (two passes); one block per (parent, dimension) whose inputs (shared weight from the annotation text / max default incl. explicit zeros, " +
+		"lend flag, min, request derived bottom-up from the leaf requests handed in) come from what the harness DECLARED, cross-checked against the manager's parsed fields (C02:glue-*); " +
 		"non-trivial = a level with >=2 siblings")
 }
 
